@@ -10,7 +10,10 @@ TInit == /\ tid \in 1..Len(TraceLines) /\ l = 1
          /\ cfg = TraceLines[tid].cfg /\ now = 0 /\ alive = FALSE /\ nops = 0 /\ act = [op |-> "init"]
          /\ s = [ticks |-> TraceLines[tid].cfg.start, running |-> FALSE, sys |-> 0, ival |-> TraceLines[tid].cfg.ival,
                  pauseAt |-> 0, out |-> <<>>]
-Obs(e) == /\ s'.out = e.out /\ (alive' => s'.ticks = e.ticks) /\ s'.running = e.running
+\* only what the statement speaks about is compared: tick and complete events (with the count they
+\* carry), the count itself and whether the timer is running
+Rel(q) == SelectSeq(q, LAMBDA x : x[1] \in {"tick", "complete"})
+Obs(e) == /\ Rel(s'.out) = Rel(e.out) /\ (alive' => s'.ticks = e.ticks) /\ s'.running = e.running
 Step(e) ==
     /\ \/ e.op = "start" /\ Start
        \/ e.op = "stop" /\ Stop
